@@ -181,6 +181,27 @@ func e4roots(v ssa.Value, seen map[ssa.Value]bool, out *[]ssa.Value) {
 		e4roots(x.X, seen, out)
 	case *ssa.Convert:
 		e4roots(x.X, seen, out)
+	case *ssa.UnOp:
+		// a slice / pointer loaded from a field of an object allocated in this function: what was stored into that
+		// field (`pb2 := &Problem{Clauses: make(...)}; copy(pb2.Clauses, ...)` fills the array made there)
+		if x.Op.String() == "*" {
+			if fa, ok := x.X.(*ssa.FieldAddr); ok {
+				if al, ok := fa.X.(*ssa.Alloc); ok {
+					for _, ref := range *al.Referrers() {
+						fa2, ok := ref.(*ssa.FieldAddr)
+						if !ok || fa2.Field != fa.Field {
+							continue
+						}
+						for _, r2 := range *fa2.Referrers() {
+							if st, ok := r2.(*ssa.Store); ok && st.Addr == ssa.Value(fa2) {
+								e4roots(st.Val, seen, out)
+							}
+						}
+					}
+				}
+			}
+		}
+		*out = append(*out, v)
 	default:
 		*out = append(*out, v)
 	}
